@@ -1029,6 +1029,26 @@ func (r *Runtime) checkObjectCoercible(v Value) {
 	}
 }
 
+// floatToIntWrap returns the integer part of the finite f modulo 2^64 (as a two's complement int64), so that a
+// further truncation to N bits yields the ECMAScript ToIntN/ToUintN result for any magnitude. (A plain int64(f)
+// conversion is not defined by Go for |f| >= 2^63.)
+func floatToIntWrap(f float64) int64 {
+	if f > -9223372036854775808.0 && f < 9223372036854775808.0 {
+		return int64(f)
+	}
+	bits := math.Float64bits(f)
+	exp := int(bits>>52)&0x7ff - 1075 // f = ±mant * 2^exp, exp >= 11 here
+	if exp >= 64 {
+		return 0
+	}
+	mant := bits&(1<<52-1) | 1<<52
+	res := int64(mant << uint(exp))
+	if bits>>63 != 0 {
+		res = -res
+	}
+	return res
+}
+
 func toInt8(v Value) int8 {
 	v = v.ToNumber()
 	if i, ok := v.(valueInt); ok {
@@ -1038,7 +1058,7 @@ func toInt8(v Value) int8 {
 	if f, ok := v.(valueFloat); ok {
 		f := float64(f)
 		if !math.IsNaN(f) && !math.IsInf(f, 0) {
-			return int8(int64(f))
+			return int8(floatToIntWrap(f))
 		}
 	}
 	return 0
@@ -1053,7 +1073,7 @@ func toUint8(v Value) uint8 {
 	if f, ok := v.(valueFloat); ok {
 		f := float64(f)
 		if !math.IsNaN(f) && !math.IsInf(f, 0) {
-			return uint8(int64(f))
+			return uint8(floatToIntWrap(f))
 		}
 	}
 	return 0
@@ -1107,7 +1127,7 @@ func toInt16(v Value) int16 {
 	if f, ok := v.(valueFloat); ok {
 		f := float64(f)
 		if !math.IsNaN(f) && !math.IsInf(f, 0) {
-			return int16(int64(f))
+			return int16(floatToIntWrap(f))
 		}
 	}
 	return 0
@@ -1122,7 +1142,7 @@ func toUint16(v Value) uint16 {
 	if f, ok := v.(valueFloat); ok {
 		f := float64(f)
 		if !math.IsNaN(f) && !math.IsInf(f, 0) {
-			return uint16(int64(f))
+			return uint16(floatToIntWrap(f))
 		}
 	}
 	return 0
@@ -1137,7 +1157,7 @@ func toInt32(v Value) int32 {
 	if f, ok := v.(valueFloat); ok {
 		f := float64(f)
 		if !math.IsNaN(f) && !math.IsInf(f, 0) {
-			return int32(int64(f))
+			return int32(floatToIntWrap(f))
 		}
 	}
 	return 0
@@ -1152,7 +1172,7 @@ func toUint32(v Value) uint32 {
 	if f, ok := v.(valueFloat); ok {
 		f := float64(f)
 		if !math.IsNaN(f) && !math.IsInf(f, 0) {
-			return uint32(int64(f))
+			return uint32(floatToIntWrap(f))
 		}
 	}
 	return 0
@@ -1167,7 +1187,7 @@ func toInt64(v Value) int64 {
 	if f, ok := v.(valueFloat); ok {
 		f := float64(f)
 		if !math.IsNaN(f) && !math.IsInf(f, 0) {
-			return int64(f)
+			return floatToIntWrap(f)
 		}
 	}
 	return 0
@@ -1182,7 +1202,7 @@ func toUint64(v Value) uint64 {
 	if f, ok := v.(valueFloat); ok {
 		f := float64(f)
 		if !math.IsNaN(f) && !math.IsInf(f, 0) {
-			return uint64(int64(f))
+			return uint64(floatToIntWrap(f))
 		}
 	}
 	return 0
@@ -1197,7 +1217,7 @@ func toInt(v Value) int {
 	if f, ok := v.(valueFloat); ok {
 		f := float64(f)
 		if !math.IsNaN(f) && !math.IsInf(f, 0) {
-			return int(f)
+			return int(floatToIntWrap(f))
 		}
 	}
 	return 0
@@ -1212,7 +1232,7 @@ func toUint(v Value) uint {
 	if f, ok := v.(valueFloat); ok {
 		f := float64(f)
 		if !math.IsNaN(f) && !math.IsInf(f, 0) {
-			return uint(int64(f))
+			return uint(floatToIntWrap(f))
 		}
 	}
 	return 0
